@@ -343,6 +343,11 @@ func main() {
 	day := time.Now().UTC().Truncate(24*time.Hour).UnixMilli() - 400*24*3600*1000
 	base = day
 	const horizon = 400000
+	if f.Part == "seriesflush" {
+		runSeriesFlush(f, rep)
+		rep.Write()
+		return
+	}
 	openWorld()
 	defer func() {
 		box.Close()
